@@ -27,7 +27,7 @@ MANIFEST = {
             "definite programs); the engine's cycle detector (checkCycle / EvalNot.createCycle) is not modelled, so 'rejects "
             "every must-reject program' and 'never raises NegativeCycle on a must-answer program' are explored on generated "
             "programs, not proved.",
-    "note": "Trusted: harness instantiation; Sem. Known finding F1: false NegativeCycle on stratified programs (second sentence "
+    "note": "Trusted: the serialiser of first-order programs (instantiation is Lean's SemFO.ground); Sem. Known finding F1: false NegativeCycle on stratified programs (second sentence "
             "of the property) - reported as KNOWN-FINDING, matched by raise site + 'no negative cycle in the specification' + "
             "structural shape.",
     "design_ref": "DESIGN.md §6 C02",
